@@ -28,19 +28,19 @@ CLAIMED = {
         technique="Coq proof over a hand model + differential correspondence with spec oracle",
     ),
     "C02": dict(
-        text="Coq theorems: every algorithm that scores through calculate_score (greedy incl. its backward minimisation and forward re-walk, substring, prefix, postfix, exact, the equal-length / tight-window / single-character shortcuts) reports exactly one strictly increasing in-range index per needle character whose normalised haystack character equals it (C02_linear_witness), contiguous and anchored as the kind requires for substring/prefix/postfix/exact (C02_shape); the prior content of the caller's vector is a prefix of the result and untouched on failure. Partial: the DP's reconstruct_optimal_path witness property (DP_witness_stmt) is validated, not yet proved: by the differential run on indices with a non-empty prior vector and by the embedding oracle on the implementation's indices (exhaustive small strings in the thorough tier).",
+        text="Coq theorems: every algorithm that scores through calculate_score (greedy incl. its backward minimisation and forward re-walk, substring, prefix, postfix, exact, the equal-length / tight-window / single-character shortcuts) reports exactly one strictly increasing in-range index per needle character whose normalised haystack character equals it (C02_linear_witness), contiguous and anchored as the kind requires for substring/prefix/postfix/exact (C02_shape); the prior content of the caller's vector is a prefix of the result and untouched on failure. The DP's reconstruct_optimal_path is proved to report a valid embedding when prefix preference is off (C02_dp_witness, via the DP cell invariant of Proofs/DPCore.v). Partial only for DP runs with prefer_prefix on: validated by the differential run on indices with a non-empty prior vector and the embedding oracle (exhaustive small strings in the thorough tier).",
         design_ref="DESIGN.md section 6, C02",
         note="Trusted: Coq kernel, translator, extraction, harness; memchr/memmem by specification. Axioms: none.",
         technique="Coq proof over a hand model + differential correspondence with embedding oracle",
     ),
     "C03": dict(
-        text="Coq theorems: the bonus rule equals the literal fzf table for every configuration and the presets carry 10/9 and 8/9 (C03_bonus_table, C03_presets: a changed constant or preset in score.rs/config.rs breaks them at the next run because GenScore.v is regenerated); calculate_score and the single-character scorers return fzf_score (literal constants) of the alignment they report for needles up to 2500 characters (C03_linear_score), every linear scorer saturates at 65535 instead of wrapping (C03_no_wrap), same alignment => same score (C03_same_alignment); the naive statements without needle_ok / bonus bound are refuted with witnesses. Partial: the DP's score/alignment coherence (DP_score_stmt) is validated by the differential run on scores and the fzf oracle on reported indices, not yet proved.",
+        text="Coq theorems: the bonus rule equals the literal fzf table for every configuration and the presets carry 10/9 and 8/9 (C03_bonus_table, C03_presets: a changed constant or preset in score.rs/config.rs breaks them at the next run because GenScore.v is regenerated); calculate_score and the single-character scorers return fzf_score (literal constants) of the alignment they report for needles up to 2500 characters (C03_linear_score), every linear scorer saturates at 65535 instead of wrapping (C03_no_wrap), same alignment => same score (C03_same_alignment); the naive statements without needle_ok / bonus bound are refuted with witnesses. The optimal entry point including the DP is covered by C03_dp_score (every DP cell's score is the fzf state of the partial alignment reconstruct returns from it).",
         design_ref="DESIGN.md section 6, C03",
         note="Trusted: Coq kernel, translator, extraction, harness. Scores saturate (fix commit 1d227ff) - equality with the scheme is claimed below saturation. Axioms: none.",
         technique="Coq refinement proof (loop invariant) to a literal spec + translator-regenerated constants + differential correspondence",
     ),
     "C04": dict(
-        text="Coq theorems: the best-position search behind one-character needles and substring matching returns the leftmost candidate with the maximal bonus and its early exit is sound for every configuration (C04_best_pos, C04_max_bonus: the clause that failed under the path configuration before fix 13b35fc); the linear prefix bonus lies in [0,8]. Partial: score <= maximum over all alignments, = recurrence, one-character optimum in final form and the DP prefix bound are validated by the brute-force oracle (all embeddings, haystack <= 9 chars) and by pairing every input with prefer_prefix off/on; DP proofs pending (statements in Spec/Statements.v).",
+        text="Coq theorems: the best-position search behind one-character needles and substring matching returns the leftmost candidate with the maximal bonus and its early exit is sound for every configuration (C04_best_pos, C04_max_bonus: the clause that failed under the path configuration before fix 13b35fc); the linear prefix bonus lies in [0,8]. C04_upper: the optimal matcher's score never exceeds the maximum of the scheme over ALL alignments (enumeration proved complete); C04_single: for a one-character needle it equals that maximum (any configuration); C04_slab_guard: the translated guard of MatrixSlab::alloc is the documented limit. Partial: 'never below the naive two-matrix recurrence' and the DP's prefix-preference bounds are validated by oracles on the implementation (naive recurrence Spec/Matching.naive_score on every case inside the documented limits, brute force for haystacks <= 9, every input run with prefer_prefix off and on), not proved.",
         design_ref="DESIGN.md section 6, C04",
         note="Trusted: Coq kernel, translator, extraction, harness; brute force limited to haystacks of at most 9 characters. Axioms: none.",
         technique="Coq proof (argmax with early exit) + brute-force oracle on the implementation",
@@ -68,6 +68,12 @@ CLAIMED = {
         design_ref="DESIGN.md section 6, C15",
         note="Trusted: Coq kernel, extraction, harness; slice::sort_by_key modelled by its contract (stable) - the model's sort is proved to be the unique stable descending permutation; atoms' fields are read from the real parser (parsing is C14), Utf32Str::new is a parameter (C17); hypotheses no_panic (C10) and score < 2^16. Axioms: none.",
         technique="Coq proof over a compositional model + differential correspondence with clause oracle",
+    ),
+    "C14": dict(
+        text="Coq theorems (Props/C14.v, 11) over a hand model of pattern_atoms / Atom::parse / Atom::new_inner (both the ASCII and the non-ASCII branch) / Pattern::parse,new,reparse with the grapheme segmentation as a parameter: parsing the escaped form of any escapable literal text yields exactly one fuzzy non-negated atom with that needle, for ASCII and non-ASCII text (C14_roundtrip); the full marker/negation table; splitting = maximal runs between unescaped whitespace; smart case / smart normalization / folded needles; reparse = parse; every parsed needle is normalised (the hypothesis of C01-C05). The round-trip clause failed on the pinned tree in the non-ASCII branch (escaped space kept its backslash, other backslashes doubled): found by the check, fixed in 9df3ba5, pinned behaviour kept executable with a machine-checked refutation. Tie: ~450k parser calls per run (structured + malformed streams, all 6 settings; thorough: all strings to length 6 over 11 symbols) compared on (kind, negative, needle, representation, ignore_case, normalize) read from Debug output; oracle = extracted spec on the implementation's atoms.",
+        design_ref="DESIGN.md section 6, C14",
+        note="Trusted: Coq kernel, extraction, harness; grapheme segmentation is a parameter (seg_faithful on seg_simple texts is validated on every run; for texts with combining marks etc. the real crate's segmentation is fed to the model); private flags read from Atom's Debug output. Axioms: none.",
+        technique="Coq proof over a hand model parameterised by segmentation + differential correspondence with spec oracle",
     ),
 }
 PENDING_REASON = "not claimed yet: the Coq model, theorems and code tie for this property are still being built in this session (design in DESIGN.md section 6); no other technique is substituted"
